@@ -43,7 +43,7 @@ Definition ref_desc (E : env) (raw : string) (d : desc) : option (string * desc)
   end.
 
 (* ---- indexValidReferrer ------------------------------------------------------------------------------- *)
-Record vstate := mkV { v_valid : bool; v_subject : string; v_resp : list (string * list desc) }.
+Record vstate := mkV { v_valid : bool; v_subject : string; v_resp : list (string * list desc); v_listed : list string }.
 
 (* every annotation of the regenerated descriptor is on the listed descriptor with the same value *)
 Definition ann_sub (rd d : desc) : bool :=
@@ -57,26 +57,29 @@ Definition desc_matches (d rd : desc) : bool :=
   && (ann_len d =? ann_len rd)%nat && ann_sub rd d.
 
 Definition valid_step (E : env) (blobs : blobs_t) (st : vstate) (d : desc) : vstate :=
+  (* a referrer listed twice: the index is regenerated into a response that lists it once *)
+  let valid0 := v_valid st && negb (existsb (String.eqb (d_dig d)) (v_listed st)) in
+  let listed := d_dig d :: v_listed st in
   match assoc (d_dig d) blobs with
-  | None => mkV false (v_subject st) (v_resp st)
+  | None => mkV false (v_subject st) (v_resp st) listed
   | Some b =>
       match b_data b with
-      | BResp _ => mkV false (v_subject st) (v_resp st)            (* a generated response names no subject *)
+      | BResp _ => mkV false (v_subject st) (v_resp st) listed            (* a generated response names no subject *)
       | BRaw raw =>
           match ref_desc E raw d with
-          | None => mkV false (v_subject st) (v_resp st)
+          | None => mkV false (v_subject st) (v_resp st) listed
           | Some (subj, rd) =>
               let subject := if String.eqb (v_subject st) "" then subj else v_subject st in
-              let valid1 := v_valid st && (String.eqb (v_subject st) "" || String.eqb (v_subject st) subj) in
+              let valid1 := valid0 && (String.eqb (v_subject st) "" || String.eqb (v_subject st) subj) in
               let valid2 := valid1 && desc_matches d rd in
-              mkV valid2 subject (rappend subj [rd] (v_resp st))
+              mkV valid2 subject (rappend subj [rd] (v_resp st)) listed
           end
       end
   end.
 
 Definition valid_referrer (E : env) (blobs : blobs_t) (ms : list desc) : vstate :=
-  let st := fold_left (valid_step E blobs) ms (mkV true "" []) in
-  mkV (v_valid st) (if v_valid st then v_subject st else "") (v_resp st).
+  let st := fold_left (valid_step E blobs) ms (mkV true "" [] []) in
+  mkV (v_valid st) (if v_valid st then v_subject st else "") (v_resp st) (v_listed st).
 
 (* ---- referrerListDedup: forward loop, a duplicate is overwritten by the last element ---------------------- *)
 Fixpoint dedup_loop (fuel : nat) (i : nat) (seen : list string) (l : list desc) : list desc :=
